@@ -58,6 +58,8 @@ pub enum Profile {
     LayerA,
     /// C10 exactness: uniform allocations only
     Uniform,
+    /// C16: panicking callbacks inside arena methods
+    Panics,
 }
 
 pub struct ArenaModel {
@@ -108,6 +110,9 @@ impl ArenaModel {
             crate::util::restore_static();
         }
         drops_clear();
+        if self.profile == Profile::Panics {
+            crate::coll::elem::reset_ledgers();
+        }
         let mut world: World<M> = World::new(envp, 0);
         if trace {
             world.trace = Some(Vec::new());
@@ -221,6 +226,7 @@ impl ArenaModel {
                 }
                 Act::ThreadHop => world.do_thread_hop(),
                 Act::CapProbe => world.do_cap_probe(),
+                Act::PanicCb { which, len, at } => world.do_panic_cb(which, len, at),
                 Act::UniTryWith { al, ok, fallible } => world.do_uni_try_with(al, ok, fallible, script),
                 Act::UniSliceFail { al, len, fail_at } => world.do_uni_slice_fail(al, len, fail_at, script),
             }
@@ -585,6 +591,29 @@ impl ArenaModel {
                 let big = (cap / ua + 2).min(250) as u8;
                 a.push(Act::UniSliceFail { al, len: big, fail_at: big - 1 });
                 a.push(Act::Reset { probe: false });
+            }
+            Profile::Panics => {
+                if last {
+                    for which in 0..14u8 {
+                        let lens: &[usize] = if which <= 3 { &[1] } else { &[0, 1, 3, cap / 16 + 1] };
+                        for &len in lens {
+                            let maxat = if which <= 3 { 1 } else { (len as u8).min(4) + 1 };
+                            for at in 0..maxat {
+                                a.push(Act::PanicCb { which, len, at });
+                            }
+                        }
+                    }
+                } else {
+                    lay(&mut a, true, &[0, 8, 24, cap, cap + 1], &[0, 3, 4]);
+                    if cap > 40 {
+                        lay(&mut a, true, &[cap - 16, cap - 40], &[0]);
+                    }
+                    a.push(Act::Reset { probe: false });
+                    a.push(Act::TryWith { fallible: false, ty: Ty::U64, ok: false, inner: Inner::Nothing, probe: false });
+                    if nraw > 0 {
+                        a.push(Act::Dealloc { h: 0 });
+                    }
+                }
             }
             Profile::CapProbe => {
                 lay(&mut a, true, &[0, 1, 3, 8, 17, cap, cap + 1, 449, 5000], &[0, 1, 3, 4, 6, 12]);
